@@ -1,3 +1,174 @@
 import Babylon.Core.Proto
-/-! Line-protocol driver for property C12 (stub). -/
-def main : IO Unit := Babylon.Core.runLines (fun (s : Unit) _ => (s, "bad-op")) ()
+import Babylon.RVec.Model
+import Babylon.RVec.Str
+/-! Line-protocol driver for the reusable-container model (property C12).
+
+usage: `drv_C12 <mode>`; the mode only selects the element-type behaviour the container cannot
+see (`Cfg`): what a moved-from element holds and which `call_reconstruct` overload applies.
+
+Three scenes share the stream (all reset by `reset`):
+* two vector registers `A`, `B` on resources `0`/`1` (`World`),
+* a `ReusableManager` with vector units (`Mgr`), lines starting with `m`,
+* a reusable string (`RStr`), lines starting with `s`. -/
+open Babylon.Core Babylon.RVec
+
+def movedMark : Val := 777777
+
+/-- the harness encodes value `v > 0` as the decimal digits of `v` followed by `v % 61` filler
+characters; libstdc++ keeps strings of up to `ssoCap` characters inside the object -/
+def isHeapString (v : Val) : Bool := v != 0 && (toString v).length + v % 61 > Babylon.Gen.RVec.ssoCap
+
+def cfgOf (mode : String) : Cfg :=
+  if mode == "elem" then
+    { mvC := fun _ => movedMark, mvA := fun _ _ => movedMark, mvSelf := id, mvX := fun _ => movedMark,
+      rebuild := false, rebuildMove := false }
+  else if mode == "elemrb" then
+    { mvC := fun _ => movedMark, mvA := fun _ _ => movedMark, mvSelf := id, mvX := fun _ => movedMark,
+      rebuild := true, rebuildMove := false }
+  else if mode == "int" || mode == "swissint" then
+    { mvC := id, mvA := fun x _ => x, mvSelf := id, mvX := id, rebuild := true, rebuildMove := true }
+  else if mode == "stdstr" then
+    -- plain `std::string` elements: moves steal and leave "", a self-move of a heap string empties it
+    { mvC := fun _ => dflt, mvA := fun _ _ => dflt, mvSelf := fun v => if isHeapString v then dflt else v,
+      mvX := fun _ => dflt, rebuild := false, rebuildMove := false }
+  else -- str / nest / swissstr: move-construct on the same allocator steals, move-assign swaps, cross-allocator copies
+    { mvC := fun _ => dflt, mvA := fun _ old => old, mvSelf := id, mvX := id, rebuild := false, rebuildMove := false }
+
+structure St where
+  w : World := {}
+  metaA : Nat := 0
+  metaB : Nat := 0
+  m : Mgr := {}
+  str : RStr := RStr.fresh
+  strMeta : Nat := 0
+
+def showVec (tag : String) (s : RVec) : String :=
+  s!"{tag} {s.size} {s.cons} {s.cap} {s.g.allocs} {s.g.allocElems} [" ++
+    " ".intercalate (s.abs.map (fun | some v => toString v | none => "?")) ++ "]"
+
+def showLife (g : Ghost) : String := s!"L {g.ctor} {g.asg} {g.dtor} {g.bad} {g.leaked}"
+
+def showW (w : World) : String :=
+  showVec "A" w.a ++ " " ++ showVec "B" w.b ++ " " ++ showLife w.total
+
+def mgrTotal (m : Mgr) : Ghost := m.units.foldl (fun g u => g.add u.inst.g) m.retired
+
+def showM (m : Mgr) : String :=
+  s!"M {m.clearTimes} {m.releases}" ++
+    String.join (m.units.map (fun u =>
+      s!" U {u.gen} {u.inst.size} {u.inst.cons} {u.inst.cap} [" ++
+        " ".intercalate (u.inst.abs.map (fun | some v => toString v | none => "?")) ++ "]")) ++
+    " " ++ showLife (mgrTotal m)
+
+def parseReg : String → Option Reg
+  | "A" => some .A
+  | "B" => some .B
+  | _ => none
+
+def parseOp : List String → Option Op
+  | "push" :: [v] => v.toNat?.map .pushBack
+  | ["pop"] => some .popBack
+  | "insr" :: i :: vs => do some (.insertRange (← i.toNat?) (← parseNats vs))
+  | ["insn", i, n, v] => do some (.insertN (← i.toNat?) (← n.toNat?) (← v.toNat?))
+  | ["emp", i, v] => do some (.emplace (← i.toNat?) (← v.toNat?))
+  | ["erase", i, j] => do some (.erase (← i.toNat?) (← j.toNat?))
+  | ["resize", n] => do some (.resize (← n.toNat?) dflt)
+  | ["resizev", n, v] => do some (.resize (← n.toNat?) (← v.toNat?))
+  | "assignl" :: vs => do some (.assignRange (← parseNats vs))
+  | ["assignn", n, v] => do some (.assignN (← n.toNat?) (← v.toNat?))
+  | ["assignc", n] => do some (.assignCount (← n.toNat?))
+  | ["reserve", n] => do some (.reserve (← n.toNat?))
+  | ["clear"] => some .clear
+  | ["set", i, v] => do some (.setAt (← i.toNat?) (← v.toNat?))
+  | _ => none
+
+def doW (c : Cfg) (s : St) (o : World.WOp) : St × String :=
+  if o.pre s.w then
+    let w := s.w.apply c o
+    ({ s with w := w }, showW w)
+  else (s, "bad-op")
+
+def stepVec (c : Cfg) (s : St) (ws : List String) : Option (St × String) :=
+  match ws with
+  | ["new", r, k] => do some (doW c s (.new (← parseReg r) (← k.toNat?)))
+  | ["newn", r, k, n, v] => do some (doW c s (.newList (← parseReg r) (← k.toNat?) (List.replicate (← n.toNat?) (← v.toNat?))))
+  | ["newc", r, k, n] => do some (doW c s (.newList (← parseReg r) (← k.toNat?) (List.replicate (← n.toNat?) dflt)))
+  | "newl" :: r :: k :: vs => do some (doW c s (.newList (← parseReg r) (← k.toNat?) (← parseNats vs)))
+  | ["swap"] => some (doW c s .swap)
+  | ["copyassign", r] => do some (doW c s (.copyAssign (← parseReg r)))
+  | ["moveassign", r] => do some (doW c s (.moveAssign (← parseReg r)))
+  | ["copyctor", r, k] => do some (doW c s (.copyCtor (← parseReg r) (← k.toNat?)))
+  | ["movector", r, k] => do some (doW c s (.moveCtor (← parseReg r) (← k.toNat?)))
+  | ["meta", r] => do
+    let r ← parseReg r
+    match r with
+    | .A => let m := s.w.a.updateMeta s.metaA; some ({ s with metaA := m }, s!"meta {m}")
+    | .B => let m := s.w.b.updateMeta s.metaB; some ({ s with metaB := m }, s!"meta {m}")
+  | ["remeta", r, k] => do
+    let r ← parseReg r
+    let k ← k.toNat?
+    let m := match r with | .A => s.metaA | .B => s.metaB
+    let w := s.w.renew r k (RVec.ofMeta m)
+    some ({ s with w := w }, showW w)
+  | r :: rest => do
+    let r ← parseReg r
+    let o ← parseOp rest
+    some (doW c s (.on r o))
+  | _ => none
+
+def stepMgr (c : Cfg) (s : St) (ws : List String) : Option (St × String) :=
+  match ws with
+  | ["mnew", n] => do
+    let n ← n.toNat?
+    let m : Mgr := if n == 0 then {} else { interval := n }
+    some ({ s with m := m }, showM m)
+  | ["mcreate"] =>
+    let (m, acc) := s.m.create RVec.fresh
+    some ({ s with m := m }, s!"acc {acc} " ++ showM m)
+  | ["mclear"] => let m := s.m.clear; some ({ s with m := m }, showM m)
+  | ["minterval", n] => do
+    let m := { s.m with interval := (← n.toNat?) }
+    some ({ s with m := m }, showM m)
+  | "m" :: acc :: rest => do
+    let acc ← acc.toNat?
+    let o ← parseOp rest
+    match s.m.get? acc with
+    | none => some (s, "bad-op")
+    | some inst =>
+      if o.pre inst.size then
+        let m := s.m.on c acc o
+        some ({ s with m := m }, showM m)
+      else some (s, "bad-op")
+  | _ => none
+
+def showS (x : RStr) : String := s!"S {x.len} {x.cap} [" ++ " ".intercalate (x.chars.map toString) ++ "]"
+
+def stepStr (s : St) (ws : List String) : Option (St × String) :=
+  match ws with
+  | ["snew"] => some ({ s with str := RStr.fresh, strMeta := 0 }, showS RStr.fresh)
+  | "sassign" :: vs => do let x := s.str.assign (← parseNats vs); some ({ s with str := x }, showS x)
+  | "sappend" :: vs => do let x := s.str.append (← parseNats vs); some ({ s with str := x }, showS x)
+  | ["sclear"] => let x := s.str.clear; some ({ s with str := x }, showS x)
+  | ["sreserve", n] => do let x := s.str.stableReserve (← n.toNat?); some ({ s with str := x }, showS x)
+  | ["sresizeu", n] => do let x := s.str.resizeUninit (← n.toNat?); some ({ s with str := x }, s!"S {x.len} {x.cap}")
+  | ["smeta"] => let m := s.str.updateMeta s.strMeta; some ({ s with strMeta := m }, s!"meta {m}")
+  | ["sremeta"] => let x := RStr.ofMeta s.strMeta; some ({ s with str := x }, showS x)
+  | _ => none
+
+def step (c : Cfg) (s : St) (line : String) : St × String :=
+  let ws := words line
+  match ws with
+  | ["reset"] => ({}, "ok")
+  | _ =>
+    match stepVec c s ws with
+    | some r => r
+    | none =>
+      match stepMgr c s ws with
+      | some r => r
+      | none =>
+        match stepStr s ws with
+        | some r => r
+        | none => (s, "bad-op")
+
+def main (args : List String) : IO Unit :=
+  runLines (step (cfgOf (args.headD "int"))) ({} : St)
